@@ -341,6 +341,11 @@ impl Cartesian<'_> {
                 started.elapsed()
             );
         }
+        // The Cartesian transitions above only looked at continuity; every waypoint of the
+        // stroke (interpolated ones included) must also be free of collisions.
+        if let Some(colliding) = trace.iter().find(|step| self.robot.collides(&step.joints)) {
+            return Err(format!("Collision detected at {:?}", colliding));
+        }
         #[cfg(rs_opw_verif)]
         crate::verif_hooks::point("probe.stop.load");
         if stop.load(Ordering::Relaxed) {
